@@ -5,8 +5,8 @@ import OVM.Tet.TetChecked
   C15(a), "four distinct vertices" along construction histories: any sequence of `add_vertex`, `add_n_vertices`,
   `add_cell(v0,v1,v2,v3)` (with or without topology check, accepted or refused) on valid arguments —
   four different live vertices; the four halffaces of an accepted cell free and pairwise different (`Cell4Free`,
-  K5's precondition of `add_cell`) — and topology-CHECKED `add_cell(halffaces)` (64c6d58) on live, free, pairwise
-  different halffaces without parallel halfedges (`NoParallel`), starting from the empty mesh keeps
+  K5's precondition of `add_cell`) — and topology-CHECKED `add_cell(halffaces)` (64c6d58, 4614b67) on live, free,
+  pairwise different halffaces, starting from the empty mesh keeps
       `CInv = BInv ∧ AllTet`
   (global kernel invariant, vertex/edge caches, every stored face a closed triangle, every stored cell `IsTet`),
   hence `TetShape`: every live face three halfedges, every live cell four halffaces on four distinct vertices.
@@ -37,7 +37,8 @@ theorem tetAddCell4_binv {k : Kernel} (h : BInv k) {v0 v1 v2 v3 : Nat} (o0 : VOk
     · exact oc.1
     · exact od.1
   have hs4 := spanVertCount_of_tetOn (tetOn_of_cell4 hd ra rb rc rd) (loops_of_hfOk b4.loops hh)
-  rw [e, tetAddCell_eq b4.loops rfl hh hs4] at hg ⊢
+  have hp4 := noParallel_of_tetOn (tetOn_of_cell4 hd ra rb rc rd) (loops_of_hfOk b4.loops hh)
+  rw [e, tetAddCell_eq b4.loops rfl hh hs4 hp4] at hg ⊢
   unfold addCell at hg ⊢
   split
   · rename_i hacc
@@ -63,10 +64,10 @@ def BuildOp.toTet : BuildOp → TetOp
   | .addHalfface3 a b c => .addHalfface3 false a b c
 
 /-- valid arguments: four different live vertices; the halffaces of an accepted cell free and pairwise different;
-    for `add_cell(halffaces)` K5's `OpOK` (live, free, pairwise different halffaces) and no parallel halfedges -/
+    for `add_cell(halffaces)` K5's `OpOK` (live, free, pairwise different halffaces) -/
 def BuildOK (k : Kernel) : BuildOp → Prop
   | .addCell4 chk a b c d => VOk k a ∧ VOk k b ∧ VOk k c ∧ VOk k d ∧ [a, b, c, d].Nodup ∧ Cell4Free k a b c d chk
-  | .addCellHF hfs => (∀ hf ∈ hfs, HfOk k hf ∧ k.sCellOf hf = none) ∧ hfs.Nodup ∧ NoParallel k hfs
+  | .addCellHF hfs => (∀ hf ∈ hfs, HfOk k hf ∧ k.sCellOf hf = none) ∧ hfs.Nodup
   | .addHalfface3 a b c => VOk k a ∧ VOk k b ∧ VOk k c ∧ a ≠ b ∧ b ≠ c ∧ a ≠ c
   | _ => True
 
@@ -76,7 +77,7 @@ instance (k : Kernel) (op : BuildOp) : Decidable (BuildOK k op) := by
 /-- topology-checked `add_cell(halffaces)` keeps the construction invariant: refused calls change nothing, an accepted
     cell is a tetrahedron -/
 theorem tetAddCell_checked_cinv {k : Kernel} (hb : BInv k) (ht : AllTet k) {hfs : List Nat}
-    (hh : ∀ hf ∈ hfs, HfOk k hf ∧ k.sCellOf hf = none) (hn : hfs.Nodup) (hnp : NoParallel k hfs) :
+    (hh : ∀ hf ∈ hfs, HfOk k hf ∧ k.sCellOf hf = none) (hn : hfs.Nodup) :
     BInv (k.tetAddCell hfs true).1 ∧ AllTet (k.tetAddCell hfs true).1 := by
   have hg := tetAddCell_ginv (k := k) (hfs := hfs) true hb.ginv (fun x hx => (hh x hx).1)
     (fun _ => ⟨fun x hx => (hh x hx).2, hn⟩)
@@ -84,7 +85,7 @@ theorem tetAddCell_checked_cinv {k : Kernel} (hb : BInv k) (ht : AllTet k) {hfs 
   | none => rw [tetAddCell_refused k hfs true hr]; exact ⟨hb, ht⟩
   | some c =>
     have hl := loops_of_hfOk hb.loops (fun x hx => (hh x hx).1.1)
-    have hi := tetAddCell_checked_isTet hr hl hnp
+    have hi := tetAddCell_checked_isTet hr hl
     obtain ⟨rfl, _, _, _, e⟩ := tetAddCell_accepted hr
     rw [e] at hg hi ⊢
     obtain ⟨m1, m2⟩ := addCellCore_modes k hfs
@@ -127,9 +128,9 @@ theorem cinv_step (k : Kernel) (op : BuildOp) (hi : CInv k) (hok : BuildOK k op)
     obtain ⟨_, _, b1, x1, _, _, _⟩ := tetAddHalfface3_spec hi.binv oa ob oc hab hbc hac
     exact ⟨b1, x1.allTet hi.binv.ginv.wf.range hi.allTet⟩
   | addCellHF hfs =>
-    obtain ⟨hh, hn, hnp⟩ := hok
+    obtain ⟨hh, hn⟩ := hok
     show CInv (k.tetAddCell hfs true).1
-    obtain ⟨h1, h2⟩ := tetAddCell_checked_cinv hi.binv hi.allTet hh hn hnp
+    obtain ⟨h1, h2⟩ := tetAddCell_checked_cinv hi.binv hi.allTet hh hn
     exact ⟨h1, h2⟩
 
 def BuildAdmissible : Kernel → List BuildOp → Prop
